@@ -163,7 +163,7 @@ var regGen int
 
 func newRegWriter(id int) io.Writer {
 	regGen++
-	f, err := os.Create(fmt.Sprintf("reg-%d-%d.log", id, regGen))
+	f, err := os.Create(fmt.Sprintf("reg-%d-%d-%d.log", os.Getpid(), id, regGen))
 	if err != nil {
 		panic(err)
 	}
@@ -176,7 +176,7 @@ var fwGen int
 
 func newFwWriter(id int) io.Writer {
 	fwGen++
-	path := fmt.Sprintf("fw-%d-%d.log", id, fwGen)
+	path := fmt.Sprintf("fw-%d-%d-%d.log", os.Getpid(), id, fwGen)
 	fw := slog.NewFileWriter(path)
 	fw.File.Close()
 	os.Remove(path)
